@@ -14,14 +14,9 @@ Proof.
   set (b := get_fifo_config_fifo_pwr_config d) in *. clearbody b. revert b H. refine (u8_eq _ _ _). vm_compute. reflexivity.
 Qed.
 
-(* read_fifo_frames: no bus traffic when refused; otherwise ONE burst of exactly the buffer length from 0x14 *)
-Theorem c19_read_shape : forall buffer,
-  BMA400_read_fifo_frames buffer =
-  Get (fun d => if Config_is_fifo_read_disabled d then Fail (BMA400Error_ConfigBuildError ConfigError_FifoReadWhilePwrDisable)
-                else Read ds_FifoData_addr (len buffer) (fun served => Ret (FifoFrames_new served))).
-Proof. reflexivity. Qed.
-
-(* for every reachable world (C16: belief = device, under any faults): refused iff bit 0 of the DEVICE register 0x29 is set *)
+(* for every reachable world (C16: belief = device, under any faults): refused, with no bus traffic, iff bit 0 of the DEVICE register
+   0x29 is set; otherwise the call is ONE burst read of exactly the buffer length from 0x14.  Stated on the runs themselves, whatever
+   shape the guard has in the generated body *)
 Theorem c19_refused_iff_device_flag : forall w buffer, Coh w -> regs (wchip w) 41 < 256 ->
   (N.testbit (regs (wchip w) 41) 0 = true ->
      run T_reg (BMA400_read_fifo_frames buffer) w = Failed (BMA400Error_ConfigBuildError ConfigError_FifoReadWhilePwrDisable) w)
@@ -29,8 +24,9 @@ Theorem c19_refused_iff_device_flag : forall w buffer, Coh w -> regs (wchip w) 4
      run T_reg (BMA400_read_fifo_frames buffer) w = run T_reg (Read 20 (len buffer) (fun served => Ret (FifoFrames_new served))) w).
 Proof.
   intros w buffer H Hb. pose proof (c19_flag_is_device w H) as E.
-  rewrite c19_read_shape. cbn [run]. rewrite c19_guard_is_bit0 by (rewrite E; exact Hb). rewrite E.
-  split; intro T; rewrite T; reflexivity.
+  pose proof (c19_guard_is_bit0 (shadow w)) as G. rewrite E in G. specialize (G Hb).
+  unfold BMA400_read_fifo_frames. cbv beta zeta. cbn [bind get_shadow run]. rewrite G.
+  split; intro T; rewrite T; cbn [negb bind read_register run]; reflexivity.
 Qed.
 
 (* the command codes *)
